@@ -53,6 +53,8 @@ type interpreter struct {
 	mainPkg            *ssa.Package
 	funcIDs            map[value]int
 	objSeq             int64
+	shared             map[*value]string // cells reachable from package-level variables (footprint mode)
+	sharedMaps         map[*omap]string
 	loopHeads          map[*ssa.BasicBlock]bool
 	loopHeadsDone      map[*ssa.Function]bool
 }
@@ -220,6 +222,9 @@ func visitInstr(fr *frame, pi *pinstr) continuation {
 		if addr == nil {
 			derefNil(fr)
 		}
+		if fr.i.shared != nil {
+			fr.i.noteSharedWrite(fr, addr)
+		}
 		store(mustDeref(instr.Addr.Type()), addr, fr.arg(pi, 1))
 
 	case *ssa.If:
@@ -362,6 +367,9 @@ func visitInstr(fr *frame, pi *pinstr) continuation {
 		m := fr.arg(pi, 0).(*omap)
 		if m == nil {
 			goPanic("assignment to entry in nil map")
+		}
+		if fr.i.shared != nil {
+			fr.i.noteSharedMapWrite(fr, m)
 		}
 		key := fr.mapKey(fr.arg(pi, 1))
 		v := fr.arg(pi, 2)
